@@ -91,6 +91,18 @@ class StmtMixin:
             idx = self.ev(t.slice, fr)
             self.setitem(base, idx, v, t)
         elif isinstance(t, (ast.Tuple, ast.List)):
+            stars = [i for i, e in enumerate(t.elts) if isinstance(e, ast.Starred)]
+            if stars:
+                # a, *b, c = <concrete sequence>
+                seq = self.concrete_seq(v) if isinstance(v, (PTuple, PList)) else None
+                if seq is None or len(stars) != 1 or len(seq) < len(t.elts) - 1:
+                    raise AnalysisError(f"starred assignment from {v!r} at line {getattr(t, 'lineno', '?')}")
+                k = stars[0]
+                tail = len(t.elts) - k - 1
+                parts = list(seq[:k]) + [PList(list(seq[k: len(seq) - tail]))] + list(seq[len(seq) - tail:])
+                for sub, item in zip(t.elts, parts):
+                    self.assign(sub.value if isinstance(sub, ast.Starred) else sub, item, fr)
+                return
             items = self.unpack(v, len(t.elts), t)
             for sub, item in zip(t.elts, items):
                 self.assign(sub, item, fr)
